@@ -163,37 +163,46 @@ def r2(ctx):
                 tbl[list(names)[0]] = (core(v), blk)
     ok = 'Empty' in tbl and match(tbl['Empty'][0], Call('from_elem', zero, ('field', ('variant', ('arg', 1, ANY), 'Empty'), 0)))
     ctx.require(ok, gw, 'weights|Empty', 'Empty(n): n zeros', None)
-    # weight variable: two definitions selected by agg
-    wd = {}
-    wlocals = [l for l in range(len(gw.locals)) if gw.local_ty(l) == 'f32' and gw.var_name(l)]
-    for site, v in [x for l in wlocals for x in local_defs(gw, l)]:
-        arm = None
-        variant = None
-        for tt, names in variant_facts_at(gw, site.bb):
-            if names in ({'Sum'}, {'Mean'}):
-                arm = list(names)[0]
-            if names in ({'Full'}, {'Nested'}):
-                variant = list(names)[0]
-        wd[(variant, arm)] = core(v)
+    # the weight / factor: 1 under Sum, 1/n under Mean -- however it is computed (named variable per arm, closure, helper)
+    from analysis.alts import flatten as _flatten, expand as _expand
+
+    def weight_table(w):
+        out = {}
+        for a_ in _flatten(_expand(ctx.facts, gw, nosite(w))):
+            arm = None
+            for tt, names in a_.variants:
+                if set(names) in ({'Sum'}, {'Mean'}):
+                    arm = list(names)[0]
+            out[arm] = core(a_.value)
+        return out
     full_len = ('field', ('variant', ('arg', 1, ANY), 'Full'), 0)
-    okf = match(wd.get(('Full', 'Sum'), ()), one) and match(wd.get(('Full', 'Mean'), ()), ('bin', 'Div', one, full_len))
-    okn = match(wd.get(('Nested', 'Sum'), ()), one) and match(wd.get(('Nested', 'Mean'), ()), ('bin', 'Div', one, Call('Vec::len', ('field', ('variant', ('arg', 1, ANY), 'Nested'), 0))))
-    ctx.require(okf, gw, 'weights|Full-weight', 'Full(n): weight 1 (sum) or 1/n (mean)', 'Full weights: %s' % {str(k): show_in(gw, v) for k, v in wd.items() if k[0] == 'Full'})
-    ctx.require(okn, gw, 'weights|Nested-weight', 'Nested: factor 1 (sum) or 1/#groups (mean)', 'Nested factors: %s' % {str(k): show_in(gw, v) for k, v in wd.items() if k[0] == 'Nested'})
-    ok = 'Full' in tbl and match(tbl['Full'][0], Call('from_elem', Pred(lambda t: t[0] in ('var', 'phi')), full_len))
-    ctx.require(ok, gw, 'weights|Full', 'Full(n): n copies of the weight', None)
-    ok = False
-    nsegs = None
+    nest_len = Call('Vec::len', ('field', ('variant', ('arg', 1, ANY), 'Nested'), 0))
+    segs_by = {}
     for v, blk in ret_values(gw):
-        if any(names == {'Nested'} for tt, names in variant_facts_at(gw, blk)):
-            nsegs = seq_of(ctx.facts, gw, v)
+        for tt, names in variant_facts_at(gw, blk):
+            if len(names) == 1 and list(names)[0] in ('Full', 'Nested'):
+                segs_by[list(names)[0]] = seq_of(ctx.facts, gw, v)
+    fs = segs_by.get('Full')
+    okfull = fs is not None and len(fs) == 1 and fs[0].kind == 'repeat' and not fs[0].conds and match(core(fs[0].count), full_len)
+    ctx.require(okfull, gw, 'weights|Full', 'Full(n): n copies of the weight', 'Full weights are built as %s' % [repr(x)[:120] for x in fs or ()])
+    if okfull:
+        wt = weight_table(fs[0].elem)
+        okf = match(wt.get('Sum', ()), one) and match(wt.get('Mean', ()), ('bin', 'Div', one, full_len))
+        ctx.require(okf, gw, 'weights|Full-weight', 'Full(n): weight 1 (sum) or 1/n (mean)', 'Full weights: %s' % {str(k): show_in(gw, v) for k, v in wt.items()})
+    nsegs = segs_by.get('Nested')
+    ok = False
     if nsegs is not None and len(nsegs) == 1 and nsegs[0].kind == 'nest' and not nsegs[0].conds and \
             match(core(nsegs[0].src), ('field', ('variant', ('arg', 1, ANY), 'Nested'), 0)) and len(nsegs[0].inner) == 1:
         inn = nsegs[0].inner[0]
         e_ = peel(inn.elem)
-        ok = inn.kind == 'each' and not inn.conds and match(core(inn.src), Call('TokenGroup::get_weights', ITEM, ('arg', 2, ANY))) and \
-            e_[0] == 'bin' and e_[1] == 'Mul' and ((core(e_[2]) == ('item', 1) and peel(e_[3])[0] in ('var', 'phi', 'choice')) or
-                                                    (core(e_[3]) == ('item', 1) and peel(e_[2])[0] in ('var', 'phi', 'choice')))
+        ok = inn.kind == 'each' and not inn.conds and match(core(inn.src), Call('TokenGroup::get_weights', ITEM, ('arg', 2, ANY))) and e_[0] == 'bin' and e_[1] == 'Mul'
+        if ok:
+            fac = e_[3] if core(e_[2]) == ('item', 1) else (e_[2] if core(e_[3]) == ('item', 1) else None)
+            ok = fac is not None
+            if ok:
+                wt = weight_table(fac)
+                okn = match(wt.get('Sum', ()), one) and match(wt.get('Mean', ()), ('bin', 'Div', one, nest_len))
+                ctx.require(okn, gw, 'weights|Nested-weight', 'Nested: factor 1 (sum) or 1/#groups (mean)', 'Nested factors: %s' % {str(k): show_in(gw, v) for k, v in wt.items()})
     ctx.require(ok, gw, 'weights|Nested', 'Nested: the weights of every inner group, in order, each scaled by the factor',
                 'Nested weights are built as %s' % [repr(x)[:160] for x in nsegs or ()])
 
